@@ -28,3 +28,22 @@ Theorem C02_later_reader_sees_commit s f drop : Inv s -> mem f (pend s) = true -
   exists fs, In (cur s1, fs) (vers s2) /\ In f fs /\ hd_error (snaps s2) = Some (cur s1).
 Proof. exact (later_reader_sees_commit s f drop). Qed.
 Print Assumptions C02_later_reader_sees_commit.
+
+(* ---- the table reader cache (kv/table/cache.go): every history of reader requests by snapshots, snapshot closes,
+   cleanups and evictions of files no open snapshot holds - no reader is closed (unmapped) while an open snapshot holds
+   it, every held reader is open, an entry's reference count is the number of times open snapshots hold it ---- *)
+From Coq Require Import ZArith.
+From LinDBV.C02 Require Cache CacheProofs.
+Theorem C02_cache_never_closes_held evs : Cache.crun_ok true Cache.cinit evs = true ->
+  let c := Cache.crun true evs in
+  Cache.closed_held c = false /\
+  (forall f, In f (Cache.all_held (Cache.holders c)) -> Cache.ref_of f (Cache.entries c) <> None) /\
+  (forall f r, Cache.ref_of f (Cache.entries c) = Some r -> r = Z.of_nat (CacheProofs.cnt f (Cache.all_held (Cache.holders c)))).
+Proof. exact (CacheProofs.cache_never_closes_held evs). Qed.
+Print Assumptions C02_cache_never_closes_held.
+(* refuted for a cache hit that does not count the new holder *)
+Theorem C02_uncounted_hit_refuted :
+  Cache.crun_ok false Cache.cinit [Cache.CGet 1 7; Cache.CGet 2 7; Cache.CRelease 1; Cache.CCleanup] = true /\
+  Cache.closed_held (Cache.crun false [Cache.CGet 1 7; Cache.CGet 2 7; Cache.CRelease 1; Cache.CCleanup]) = true.
+Proof. exact CacheProofs.uncounted_hit_refuted. Qed.
+Print Assumptions C02_uncounted_hit_refuted.
